@@ -248,7 +248,7 @@ func RemoveAll(fs FS, path string) error {
 }
 
 func removeAll(fs FS, path string) error {
-	info, err := Stat(fs, path)
+	info, err := LstatOrStat(fs, path) // do not follow a symbolic link into the directory it points to
 	if err != nil {
 		if errors.Is(err, ErrNotExist) {
 			err = nil
